@@ -1168,6 +1168,108 @@ theorem finishCell_agree (es : List (Level × Entry)) (h : ∀ le ∈ es, le.2.r
     rfl
   rw [hp]
 
+/-! ## the two models of `backfill_assignments` agree -/
+
+/-- D's record as C's `Cell` (level ↦ finished record, a Python dict) -/
+def toElectionCell (r : Record) : Election.Cell :=
+  r.levels.map (fun le => (le.1, toElectionOut le.2))
+
+/-- outcomes: the only failure of `backfill_assignments` is the `KeyError` of
+`_child_to_parent[level][node]` -/
+def toInferResult : Except Err Record → Except Election.InferErr Election.Cell
+  | .ok r => .ok (toElectionCell r)
+  | .error _ => .error .keyError
+
+theorem toElectionCell_lookup (r : Record) (k : Level) :
+    (toElectionCell r).lookup k = (r.levels.lookup k).map toElectionOut :=
+  lookup_map_snd toElectionOut k r.levels
+
+theorem backfillOne_agree (tMeta : RawTree) (cl pl : Level) (r : Record) :
+    Election.inferStep tMeta.childToParent (toElectionCell r) cl pl =
+      toInferResult (backfillOne tMeta cl pl r) := by
+  unfold Election.inferStep backfillOne
+  rw [toElectionCell_lookup, toElectionCell_lookup]
+  cases hp : r.levels.lookup pl with
+  | some ep => simp [toInferResult]
+  | none =>
+    simp only [Option.map_none, Option.isSome_none, Bool.false_eq_true, if_false]
+    cases hc : r.levels.lookup cl with
+    | none => simp [toInferResult]
+    | some e =>
+      simp only [Option.map_some]
+      have ha : (toElectionOut e).assignment = e.assignment := rfl
+      rw [ha]
+      cases hq : tMeta.childToParent cl e.assignment with
+      | none => simp [toInferResult]
+      | some p =>
+        simp only [toInferResult, toElectionCell, List.map_append, List.map_cons, List.map_nil]
+        rfl
+
+theorem backfillPairs_agree (tMeta : RawTree) : ∀ (ps : List (Level × Level)) (r : Record),
+    ps.foldlM (fun c p => Election.inferStep tMeta.childToParent c p.1 p.2) (toElectionCell r) =
+      toInferResult (backfillPairs tMeta ps r)
+  | [], r => rfl
+  | (cl, pl) :: rest, r => by
+    simp only [List.foldlM_cons, backfillPairs, backfillOne_agree]
+    cases h1 : backfillOne tMeta cl pl r with
+    | error e => rfl
+    | ok r1 =>
+      simp only [toInferResult]
+      exact backfillPairs_agree tMeta rest r1
+
+/-- **D's `backfill_assignments` (one cell) is C's `inferLevels`**, so
+`C03.inferred` speaks about the records of group D's pipeline -/
+theorem backfill_agree (tMeta : RawTree) (r : Record) :
+    Election.inferLevels tMeta.childToParent tMeta.hierarchy (toElectionCell r) =
+      toInferResult (backfillPairs tMeta (pairsOf tMeta.hierarchy.reverse) r) :=
+  backfillPairs_agree tMeta _ r
+
+/-- **one record of D's pipeline, computed by C's model**: the flagged walk of
+a cell is `Election.finishCell` of the raw per-level votes along the walk, and
+the finished record is `Election.inferLevels` (parents from the stored tree)
+of the flagged walk -/
+theorem cellResult_election {κ} {t0 t : RawTree} {vote : Oracle κ} {nR : Nat}
+    (rt : RunTreeOK t0 t) (hv : VoteOK t vote) (hpay : PayloadOK nR t vote)
+    (id : CellId) (c : κ) (o : Record) (h : cellResult t0 t vote id c = .ok o) :
+    ∃ raw, walkFrom t vote c t.hierarchy none = .ok raw ∧
+      raw.map (·.1) = t.hierarchy ∧
+      (markDirect t.hierarchy (mkRecord t vote id c)).levels.map (·.1) = t.hierarchy ∧
+      (markDirect t.hierarchy (mkRecord t vote id c)).levels.map (fun le => toElectionOut le.2) =
+        Election.finishCell (raw.map (fun le => toElectionRec le.2)) ∧
+      Election.inferLevels t0.childToParent t0.hierarchy
+        (toElectionCell (markDirect t.hierarchy (mkRecord t vote id c))) =
+          .ok (toElectionCell o) := by
+  obtain ⟨es, hes, hfst, _, _⟩ :=
+    walkFrom_path rt.wf hv c t.hierarchy [] none (by simp) (Or.inl ⟨rfl, rfl⟩)
+  have hwalk : walk t vote c = .ok (LevelLoop.finishCell es) := by simp only [walk, hes]
+  have hwd : walkD t vote c = LevelLoop.finishCell es := by simp [walkD, hwalk]
+  have hkeys := record_keys rt.wf hv id c
+  obtain ⟨hraw, _⟩ := walkFrom_raw rt.wf hv hpay c t.hierarchy [] none (by simp)
+    (Or.inl ⟨rfl, rfl⟩) es hes
+  have hru : ∀ le ∈ es, le.2.ru.isSome = true := by
+    intro le hle
+    obtain ⟨_, ra, rc, rp, hr, _⟩ := hraw le hle
+    rw [hr]; rfl
+  refine ⟨es, hes, hfst, hkeys, ?_, ?_⟩
+  · rw [← finishCell_agree es hru, markDirect_levels, List.map_map]
+    simp only [mkRecord, hwd]
+    apply List.map_congr_left
+    intro le hle
+    have hl : le.1 ∈ t.hierarchy := by
+      have hk : (LevelLoop.finishCell es).map (·.1) = t.hierarchy := by
+        rw [← hkeys, markDirect_keys]; simp only [mkRecord, hwd]
+      rw [← hk]
+      exact List.mem_map.mpr ⟨le, hle, rfl⟩
+    simp only [Function.comp, flagDirect, List.contains_iff_mem.mpr hl, if_true]
+  · have hb := backfill_agree t0.dropCells (markDirect t.hierarchy (mkRecord t vote id c))
+    unfold cellResult at h
+    rw [h, dropCells_hierarchy] at hb
+    have hfun : t0.dropCells.childToParent = t0.childToParent := by
+      funext cl n
+      exact childToParent_dropCells (wfb_nodup_hierarchy rt.wf0) cl n
+    rw [hfun] at hb
+    exact hb
+
 /-! ## a concrete instance (non-vacuity examples of `Props/C15/Bridge`, `Props/C03/Bridge`) -/
 
 /-- an oracle with a full payload: the cell's number picks the child, every
